@@ -19,8 +19,8 @@ Record meta := mkMeta { m_bs : list nat; m_dev : option dev; m_names : dnames; m
    one of the objects handed to the call (numbered by the caller) or an object created during the call *)
 Inductive obj := Old (z : Z) | New.
 Inductive kind := KTensor | KNonT | KNode.
-(* exception class enum: KeyError, RuntimeError, ValueError, AttributeError, TypeError *)
-Inductive err := EKey | ERuntime | EValue | EAttr | EType.
+(* exception class enum: KeyError, RuntimeError, ValueError, AttributeError, TypeError, IndexError *)
+Inductive err := EKey | ERuntime | EValue | EAttr | EType | EIndex.
 Inductive res (X : Type) := Ok (x : X) | Raised (e : err) | Unmodelled.
 Arguments Ok {X} x.
 Arguments Raised {X} e.
@@ -461,7 +461,7 @@ Fixpoint lazy_members (con : bool) (prefix : list string) (members : list tree) 
           match m with
           | Node so sm sf =>
               match out with
-              | Some [] => Raised EValue             (* out[i]: IndexError in fact; outside the generated domain *)
+              | Some [] => Raised EIndex             (* out[i] on an out= with fewer members *)
               | _ =>
                   bind (apply_nest con prefix so sm sf oth (match out with Some (x :: _) => Some x | _ => None end) None) (fun r =>
                   bind (lazy_members con prefix ms (map (@tl tree) others) (option_map (@tl tree) out)) (fun rs => Ok ((m, r) :: rs)))
